@@ -316,7 +316,8 @@ static void run_case(int f, int w, int h, int k, int t, int placement, const std
   }
   if (vr::replaying())
     printf("%s(%s) fill k=%d t=%d placement %s: %s -> %s\n", F.name, dims, k, t, placement ? "padded" : "exact", got_summary.c_str(), bad ? "VIOLATION" : "ok (pixels equal the input)");
-  vr::sample(fn + "(" + dims + ", fill (p*" + std::to_string(k) + "+" + std::to_string(t) + ") mod 256) -> " + got_summary, fn);
+  if (w == 3 && h == 2 && t == 1 && placement == 0)
+    vr::sample(fn + "(" + dims + ", fill (p*" + std::to_string(k) + "+" + std::to_string(t) + ") mod 256) -> " + got_summary, fn);
   unlink(file.c_str());
   free(block);
 }
